@@ -29,11 +29,11 @@ UNIT = dict(
         dict(kind="mirror", file=W, struct="Walrus", fields=[
             ("topic_entry_counts", "RwLock<HashMap<String, u64>>", "HashMap<String, u64>"),
         ], ghost_fields=["rest: WalrusRest"]),
-        dict(kind="fn", file=W, path="impl Walrus / fn increment_topic_entry_count", sig_rules=SELF_MUT, rules=COUNT_RULES, proof_prologue="broadcast use axiom_string_view_injective, axiom_string_of;",
+        dict(kind="fn", file=W, path="impl Walrus / fn increment_topic_entry_count", sig_rules=SELF_MUT, rules=COUNT_RULES, proof_prologue="broadcast use axiom_string_view_injective, axiom_string_of, lemma_string_of_view;",
              requires=[("C15:pre_key_model", "obeys_key_model::<String>()")],
              ensures=[("C15:increment_exact_whole_map", "final(self).topic_entry_counts@ == counts_after_inc(old(self).topic_entry_counts@, topic@, delta)"),
                       ("C15:increment_frame_rest", "final(self).rest == old(self).rest")]),
-        dict(kind="fn", file=W, path="impl Walrus / fn decrement_topic_entry_count", sig_rules=SELF_MUT, rules=COUNT_RULES, proof_prologue="broadcast use axiom_string_view_injective, axiom_string_of;",
+        dict(kind="fn", file=W, path="impl Walrus / fn decrement_topic_entry_count", sig_rules=SELF_MUT, rules=COUNT_RULES, proof_prologue="broadcast use axiom_string_view_injective, axiom_string_of, lemma_string_of_view;",
              requires=[("C15:pre_key_model", "obeys_key_model::<String>()")],
              ensures=[("C15:decrement_exact_whole_map", "final(self).topic_entry_counts@ == counts_after_dec(old(self).topic_entry_counts@, topic@, delta)"),
                       ("C15:decrement_frame_rest", "final(self).rest == old(self).rest")]),
